@@ -154,7 +154,7 @@ func profilesFor(id string) []*Profile {
 		withW(p, "commit", 20, "settz", 14, "config", 8, "write", 16, "add", 16, "reset", 1, "rm", 1, "branch", 0, "branchd", 0, "branchr", 0, "switch", 0, "switchc", 0, "updateref", 0,
 			"restore", 0, "restores", 0, "remove", 0, "rmdir", 0, "touch", 0, "mkdir", 0)
 		p.Msgs = append(append([]string{}, defaultMsgs...), "multi\n\nblank\nlines: yes", strings.Repeat("long ", 500), "colon: at: start")
-		p.Obs = ObsSpec{Log: true, LogKs: []int{1}, CatFile: true}
+		p.Obs = ObsSpec{Log: true, LogKs: []int{1, 4}, CatFile: true}
 		// identity split over the two scopes (no identity configured up front)
 		q := baseProfile("identity")
 		q.Paths = []string{"a", "b"}
